@@ -2,7 +2,8 @@
 import tables as T
 from cfg import cfg_of
 from flow import Taint, callee_matches, op_local, prep
-from rules import CallGuard, CallSink, CmpGuard, RetSink, AggSink, BlockSink, pat_match
+from rules import CallGuard, CallSink, CmpGuard, RetSink, AggSink, BlockSink, pat_match, PL
+from rules import P as Pm
 from props.C03 import PV, KIND, PUT, STORE_FNS, VKE, param_seeds, field_read_seeds
 from props.C12 import chunk_rules
 
@@ -53,7 +54,7 @@ def call_results(pats):
 
 def record_key_reads(body):
     ta = Taint(body)
-    roots = {l for l in ta.var_locals("record") if not (body.kind == "closure" and l == 1)}
+    roots = PL(body, 1)  # the `record: Record` parameter (position 1, after self)
     out = set()
     for b in body.blocks:
         for s in b["stmts"]:
@@ -81,8 +82,8 @@ def run(R):
     R.who_may_call("C04.sinks", [PUT], STORE_FNS, floor=4, descr="put_local_record is called only from the four typed store functions")
 
     # (2) key provenance per store function
-    for nm, (fn, content_param) in {"chunk": (STORE["chunk"], "chunk"), "pad": (STORE["pad"] + "::{closure#0}", "scratchpad"),
-                                    "reg": (STORE["reg"] + "::{closure#0}", "register"), "tx": (STORE["tx"] + "::{closure#0}", "transactions")}.items():
+    for nm, (fn, content_param) in {"chunk": (STORE["chunk"], 1), "pad": (STORE["pad"] + "::{closure#0}", 1),
+                                    "reg": (STORE["reg"] + "::{closure#0}", 1), "tx": (STORE["tx"] + "::{closure#0}", 1)}.items():
         rule = "C04.key." + nm
         body = R.body(rule, fn)
         if body is None:
@@ -96,7 +97,7 @@ def run(R):
         ta = Taint(body)
         trk = call_results([TRK])(body)
         derived = ta.closure(trk)
-        content = Taint(body, through="all").closure(ta.var_locals(content_param))
+        content = Taint(body, through="all").closure(PL(body, content_param))
         ok = True
         for b, s, op in recs:
             k = op_local(op)
@@ -105,7 +106,7 @@ def run(R):
                     ok = False
                     R.viol(rule, "key-not-derived", "Record.key persisted by %s is not the result of NetworkAddress::to_record_key" % fn, body, s["l"])
             else:
-                pk = ta.closure(ta.var_locals("record_key"))
+                pk = ta.closure(PL(body, 2))  # the `record_key` parameter
                 if k not in pk:
                     ok = False
                     R.viol(rule, "key-not-param", "Record.key persisted by %s is not the record_key parameter" % fn, body, s["l"])
@@ -116,13 +117,13 @@ def run(R):
                 if t["k"] == "call" and not b["cleanup"] and callee_matches(t, [TRK]):
                     if op_local(t["args"][0]) not in content:
                         ok = False
-                        R.viol(rule, "address-not-from-content", "to_record_key in %s is applied to an address not taken from `%s`" % (fn, content_param), body, t["l"])
+                        R.viol(rule, "address-not-from-content", "to_record_key in %s is applied to an address not taken from the content parameter (#%s)" % (fn, content_param), body, t["l"])
         R.inst(rule, "K6 flows-to", "key of the Record persisted by %s derives from the content's own address" % fn.split("::")[-2 if "closure" in fn else -1],
                len(recs), ok)
     pad = R.body("C04.key.pad.cmp", STORE["pad"] + "::{closure#0}")
     if pad is not None:
         R.gate("C04.key.pad.cmp", pad, CallSink(PUT),
-               [[CmpGuard(call_results([TRK]), param_seeds("record_key"), "Eq", "scratchpad_key == record_key")]],
+               [[CmpGuard(call_results([TRK]), Pm(2), "Eq", "scratchpad_key == record_key")]],
                descr="scratchpad store cut by content-derived key == presented key")
     txf = R.body("C04.key.tx.cmp", STORE["tx"] + "::{closure#0}::{closure#0}")
     if txf is not None:
@@ -152,7 +153,7 @@ def run(R):
     # (3a) validate_key_and_existence
     vke = R.body("C04.vke", VKE + "::{closure#0}")
     if vke is not None:
-        R.gate("C04.vke", vke, RetSink("Ok"), [[CmpGuard(param_seeds("expected_record_key"), call_results([TRK]), "Eq",
+        R.gate("C04.vke", vke, RetSink("Ok"), [[CmpGuard(Pm(2), call_results([TRK]), "Eq",
                                                          "expected_record_key == address.to_record_key()")]],
                descr="validate_key_and_existence returns Ok only for matching keys", min_sinks=2)
         R.must_call("C04.vke.addr", VKE, [TRK], "key computed from the address argument")
